@@ -375,29 +375,38 @@ func (e *env) writeFile(rel string, rows []row) {
 	sort.Strings(e.files)
 }
 
-// readFile returns the rows of a file ordered by rid, or (nil,false) when the file does not exist.
-// extra is an optional extra select expression (the predicate) returned as a tri-state per row.
-func (e *env) readFile(rel string, extra string) ([]row, []int, bool) {
-	full := filepath.Join(e.root, e.dbName, meas, rel)
-	if _, err := os.Stat(full); err != nil {
-		return nil, nil, false
+// readFiles reads the given existing files with ONE query (rows ordered by file, rid). extra is an
+// optional select expression (the predicate), returned as a tri-state per row (0 false, 1 true, 2 NULL).
+func (e *env) readFiles(rels []string, extra string) (map[string][]row, map[string][]int) {
+	out, pvs := map[string][]row{}, map[string][]int{}
+	if len(rels) == 0 {
+		return out, pvs
+	}
+	base := filepath.Join(e.root, e.dbName, meas) + "/"
+	var list []string
+	for _, rel := range rels {
+		out[rel], pvs[rel] = []row{}, []int{}
+		list = append(list, "'"+base+rel+"'")
 	}
 	x := "NULL::BOOLEAN"
 	if extra != "" {
 		x = "(" + extra + ")"
 	}
-	rs, err := e.sqldb.Query(fmt.Sprintf("SELECT rid, epoch_us(time), i, f, s, b, %s FROM read_parquet('%s') ORDER BY rid", x, full))
+	rs, err := e.sqldb.Query(fmt.Sprintf("SELECT filename, rid, epoch_us(time), i, f, s, b, %s FROM read_parquet([%s], filename=true) ORDER BY filename, rid", x, strings.Join(list, ", ")))
 	must(err)
 	defer rs.Close()
-	var out []row
-	var pv []int
 	for rs.Next() {
+		var fn string
 		var rid int64
 		var t, i sql.NullInt64
 		var f sql.NullFloat64
 		var s sql.NullString
 		var b, p sql.NullBool
-		must(rs.Scan(&rid, &t, &i, &f, &s, &b, &p))
+		must(rs.Scan(&fn, &rid, &t, &i, &f, &s, &b, &p))
+		rel := strings.TrimPrefix(fn, base)
+		if _, ok := out[rel]; !ok {
+			panic("unexpected filename from DuckDB: " + fn)
+		}
 		r := row{{k: 'i', n: rid}, null, null, null, null, null}
 		if t.Valid {
 			r[1] = cell{k: 't', n: t.Int64}
@@ -421,7 +430,7 @@ func (e *env) readFile(rel string, extra string) ([]row, []int, bool) {
 				r[5].n = 1
 			}
 		}
-		out = append(out, r)
+		out[rel] = append(out[rel], r)
 		v := 2 // NULL
 		if p.Valid {
 			v = 0
@@ -429,23 +438,23 @@ func (e *env) readFile(rel string, extra string) ([]row, []int, bool) {
 				v = 1
 			}
 		}
-		pv = append(pv, v)
+		pvs[rel] = append(pvs[rel], v)
 	}
 	must(rs.Err())
-	return out, pv, true
+	return out, pvs
 }
 
 type snapshot map[string][]row // present files only
 
 func (e *env) snap(where string) (snapshot, map[string][]int) {
-	s, pv := snapshot{}, map[string][]int{}
+	var present []string
 	for _, f := range e.files {
-		if rows, p, ok := e.readFile(f, where); ok {
-			s[f] = rows
-			pv[f] = p
+		if _, err := os.Stat(filepath.Join(e.root, e.dbName, meas, f)); err == nil {
+			present = append(present, f)
 		}
 	}
-	return s, pv
+	rows, pv := e.readFiles(present, where)
+	return snapshot(rows), pv
 }
 
 func (s snapshot) enc(files []string) string {
@@ -535,10 +544,16 @@ func delOut(status int, r delResp) string {
 
 // ---------------------------------------------------------------- one case
 
+type addF struct {
+	path string
+	rows []row
+}
+
 type delReq struct {
 	dry, confirm bool
 	max, thr     int
 	p            *pred
+	add          []addF // NEW parquet files (new paths) that land in the measurement before this request
 }
 
 func b01(b bool) int {
@@ -670,6 +685,15 @@ func (e *env) runCase(files map[string][]row, order []string, reqs []delReq, tag
 	var lastDry *delResp
 	var lastDryWhere string
 	for _, d := range reqs {
+		for _, a := range d.add {
+			e.writeFile(a.path, a.rows)
+			op := "file " + a.path + " " + encRows(a.rows)
+			e.c.Op(op, fmt.Sprintf("ok rows=%d", len(a.rows)))
+			canon.WriteString(op + ";")
+			replay.WriteString(op + "   -- a new file lands in the measurement\n")
+			e.c.Tag("history:file-added-between-requests")
+			lastDry = nil // the data changed: the earlier preview is not comparable any more
+		}
 		where := d.p.sql()
 		canon.WriteString(fmt.Sprintf("del %d %d %d %d %s;", b01(d.dry), b01(d.confirm), d.max, d.thr, d.p.enc()))
 		status, r, before, pv, after := e.doDelete(d, &replay)
@@ -701,6 +725,9 @@ func (e *env) runCase(files map[string][]row, order []string, reqs []delReq, tag
 			}
 			if !r.DryRun {
 				e.c.Fail("dry-run-flag-lost:handleDelete", "response of a dry run does not say dry_run=true", replay.String())
+			}
+			if status == 200 && r.DeletedCount != int64(nTrue) {
+				e.c.Fail("dry-run-count-wrong:findAffectedFiles", fmt.Sprintf("dry run reported deleted_count=%d but %d stored rows satisfy WHERE %s (DuckDB evaluation over every file of the measurement)", r.DeletedCount, nTrue, where), replay.String())
 			}
 			rc := r
 			lastDry, lastDryWhere = &rc, where
@@ -867,7 +894,7 @@ func main() {
 		{"edge:str-cmp", mk(row{I(1), T(0), I(1), F(5), S("a"), B(0)}, row{I(2), T(0), I(1), F(5), S("A"), B(0)}, row{I(3), T(0), I(1), F(5), S("ab"), B(1)}, row{I(4), T(0), I(1), F(5), S(""), B(1)}), &pred{op: "cmp", cmp: "le", col: 4, lit: S("a")}},
 	}
 	for _, ed := range edge {
-		e.runCase(ed.data, one, []delReq{{true, false, big, big, ed.p}, {false, false, big, big, ed.p}, {false, true, big, big, ed.p}}, ed.tag)
+		e.runCase(ed.data, one, []delReq{{true, false, big, big, ed.p, nil}, {false, false, big, big, ed.p, nil}, {false, true, big, big, ed.p, nil}}, ed.tag)
 	}
 	// same base name in several hour partitions; the predicate selects every row of ONE of the files
 	// (whole-file removal), of an earlier / a later / the middle one, next to a partial rewrite.
@@ -882,18 +909,65 @@ func main() {
 			}
 			order := []string{"2024/01/01/00/data.parquet", "2024/01/01/01/data.parquet", "2024/01/01/02/data.parquet", "2024/01/02/00/data.parquet"}
 			p := &pred{op: "cmp", cmp: "eq", col: 2, lit: I(sel)}
-			e.runCase(data, order, []delReq{{true, false, big, big, p}, {false, true, big, big, p}}, fmt.Sprintf("edge:same-basename-%d", k))
+			e.runCase(data, order, []delReq{{true, false, big, big, p, nil}, {false, true, big, big, p, nil}}, fmt.Sprintf("edge:same-basename-%d", k))
 		}
 	}
 	// gates: max rows, confirmation threshold
 	{
 		data := mk(r3(1, I(5)), r3(2, I(6)), r3(3, I(0)))
 		p := &pred{op: "cmp", cmp: "gt", col: 2, lit: I(1)}
-		e.runCase(data, one, []delReq{{true, false, big, 1, p}, {true, true, big, 1, p}, {true, true, 1, big, p}, {false, true, 1, big, p}, {false, true, 2, 1, p}}, "edge:gates")
+		e.runCase(data, one, []delReq{{true, false, big, 1, p, nil}, {true, true, big, 1, p, nil}, {true, true, 1, big, p, nil}, {false, true, 1, big, p, nil}, {false, true, 2, 1, p, nil}}, "edge:gates")
 	}
 
 	// malformed / refused requests (monitors only)
 	e.malformedStream()
+
+	// histories on the ONE long-lived handler: preview, then the data changes, then the identical confirmed delete
+	{
+		ri := func(rid, i int64) row { return row{I(rid), T(0), I(i), F(2), S("ab"), B(1)} }
+		p := &pred{op: "cmp", cmp: "eq", col: 2, lit: I(7)}
+		q := &pred{op: "cmp", cmp: "eq", col: 2, lit: I(8)}
+		data := map[string][]row{"2024/01/01/00/data.parquet": {ri(1, 7), ri(2, 8), ri(3, 9)}, "2024/01/01/01/data.parquet": {ri(4, 9)}}
+		order := []string{"2024/01/01/00/data.parquet", "2024/01/01/01/data.parquet"}
+		// new files (one brand-new partition, one next to an existing file) land between preview and confirm
+		e.runCase(data, order, []delReq{{dry: true, max: big, thr: big, p: p},
+			{confirm: true, max: big, thr: big, p: p, add: []addF{{"2024/01/01/02/data.parquet", []row{ri(5, 7), ri(6, 9)}}, {"2024/01/01/00/late.parquet", []row{ri(7, 7)}}}}}, "edge:preview-add-confirm")
+		// an in-place rewrite (another delete) happens between preview and confirm
+		e.runCase(data, order, []delReq{{dry: true, max: big, thr: big, p: p}, {confirm: true, max: big, thr: big, p: q}, {confirm: true, max: big, thr: big, p: p}}, "edge:preview-rewrite-confirm")
+	}
+	// many small files: 101–260 one-/two-row hourly files with the same base name, matches spread over the whole listing
+	{
+		nMany := 2
+		if c.Thorough() {
+			nMany = 10
+		}
+		var rid int64 = 1_000_000
+		for k := 0; k < nMany; k++ {
+			nf := r.Range(101, 150)
+			if k%2 == 1 {
+				nf = r.Range(201, 260)
+			}
+			data := map[string][]row{}
+			var order []string
+			for j := 0; j < nf; j++ {
+				name := fmt.Sprintf("2024/01/%02d/%02d/data.parquet", 1+j/24, j%24)
+				nr := 1 + r.Intn(2)
+				var rows []row
+				for x := 0; x < nr; x++ {
+					rid++
+					rows = append(rows, row{I(rid), T(int64(j) * 1_000_000), I(int64(r.Intn(4))), genCell(r, 'f', 20), genCell(r, 's', 20), genCell(r, 'b', 20)})
+				}
+				data[name] = rows
+				order = append(order, name)
+			}
+			sort.Strings(order)
+			p := &pred{op: "cmp", cmp: "eq", col: 2, lit: I(int64(r.Intn(4)))}
+			if k%3 == 2 {
+				p = &pred{op: "in", col: 2, lits: []cell{I(0), I(3)}}
+			}
+			e.runCase(data, order, []delReq{{dry: true, max: big, thr: big, p: p}, {confirm: true, max: big, thr: big, p: p}}, "many-files")
+		}
+	}
 
 	// (2) random datasets × predicates; each: dry run, confirmed delete, sometimes a follow-up delete.
 	var rid int64 = 100
@@ -913,10 +987,35 @@ func main() {
 			if r.Chance(8) {
 				thr = r.Range(0, 3)
 			}
-			if r.Chance(85) {
-				reqs = append(reqs, delReq{true, r.Chance(50), max, thr, p})
+			dryFirst := r.Chance(85)
+			if dryFirst {
+				reqs = append(reqs, delReq{dry: true, confirm: r.Chance(50), max: max, thr: thr, p: p})
 			}
-			reqs = append(reqs, delReq{false, !r.Chance(7), max, thr, p})
+			real := delReq{dry: false, confirm: !r.Chance(7), max: max, thr: thr, p: p}
+			if r.Chance(30) {
+				// new files land (new paths) before the confirmed delete; rows are copies of stored rows with
+				// fresh rids, so they match the predicate as often as the stored ones do
+				na := r.Range(1, 2)
+				for a := 0; a < na; a++ {
+					var src []row
+					for _, f := range order {
+						src = append(src, files[f]...)
+					}
+					var rows []row
+					for x := r.Range(1, 3); x > 0 && len(src) > 0; x-- {
+						rid++
+						rw := append(row{}, vh.Pick(r, src)...)
+						rw[0] = cell{k: 'i', n: rid}
+						rows = append(rows, rw)
+					}
+					name := fmt.Sprintf("2024/01/%02d/%02d/late%d_%d.parquet", 1+r.Intn(2), r.Intn(4), j, a)
+					if r.Chance(50) {
+						name = fmt.Sprintf("2024/01/03/%02d/data.parquet", 2*j+a)
+					}
+					real.add = append(real.add, addF{name, rows})
+				}
+			}
+			reqs = append(reqs, real)
 		}
 		e.runCase(files, order, reqs, "random")
 	}
